@@ -297,8 +297,12 @@ class Product2:
 
     def canon(self):
         # identity relations between the live objects are part of the state (aliased cursors, shared row lists)
-        alias = tuple(a is not None and b is not None and x(a) is x(b)
-                      for a, b in [tuple(self.cs)] for x in (lambda c: c.real, lambda c: c.real._rows if c.real._rows is not None else c))
+        a, b = self.cs
+        alias = ()
+        if a is not None and b is not None:
+            shared = tuple(sorted(k for k, v in vars(a.real).items()
+                                  if k != '_context' and isinstance(v, (list, dict, set)) and vars(b.real).get(k) is v))
+            alias = (a.real is b.real, shared)
         return tuple(c.canon() if c else None for c in self.cs) + (alias,)
 
 
